@@ -63,6 +63,12 @@ structure Dump where
   wvh : Nat
   len : Int
 
+/-- the black-box part of an observation (always present): AsSlice() and Len() -/
+def parseBlack (obs : String) : Option Dump := do
+  let vals ← fieldInts obs "vals"
+  let len ← fieldInt obs "len"
+  pure { vals, hs := [], level := 0, size := 0, hdr := 0, chains := [], wvh := 0, len }
+
 def parseDump (obs : String) : Option Dump := do
   let vals ← fieldInts obs "vals"
   let hsI ← fieldInts obs "hs"
@@ -94,7 +100,7 @@ def checker (model : Bool) : Checker where
   init := none
   step st op obs :=
     let ws := words op
-    match parseDump obs with
+    match (if model then parseDump obs else parseBlack obs) with
     | none =>
       match field obs "statepanic" with
       | some m => (st, some s!"AsSlice/Len or the walk over the towers panicked after this call: {m}")
@@ -155,6 +161,14 @@ def checker (model : Bool) : Checker where
               | some m => (some { x with s := resync }, some m)
               | none => (some { x with s := s' }, none)
         else
+          -- `na`: Get/Peek are not reachable through the public wrapper when it is observed black-box;
+          -- the enumeration must still be the unchanged sorted multiset
+          let isGetPeek : Bool := match o with | .get _ => true | .peek => true | _ => false
+          if got == "na" && isGetPeek then
+            (if !Spec.check x.cmp x.bag .len (.ok (.int x.bag.length)) d.vals ∨ d.len ≠ (d.vals.length : Int) then
+              (some { x with bag := d.vals }, some s!"AsSlice {renderInts d.vals} / Len not allowed after {renderInts x.bag}")
+             else (some { x with bag := d.vals }, none))
+          else
           match parseOut got o with
           | none => (some { x with bag := d.vals }, some s!"result {got} is not a possible result of this call")
           | some out =>
